@@ -14,7 +14,7 @@ PROPERTY_ID = "C18"
 LEVEL = "exploration"
 RULE = (
     "Hypothesis draws a store of 0-12 entries created through two cached functions whose output size is drawn (0..5000 "
-    "bytes), access times assigned with os.utime from 7 slots 1000 s apart (ties frequent), and the three limits: "
+    "bytes; one entry in eight is then emptied to a total size of 0), access times assigned with os.utime from 7 slots 1000 s apart (ties frequent), and the three limits: "
     "bytes_limit in {None, 0, total, total-1, size-after-evicting-k-oldest +-1, '1K', '0.5K', '2M', ...}, items_limit in "
     "{None, 0..13}, age_limit in {None, a timedelta falling between two access-time slots (>= 400 s from any access time)}. "
     "Oracle (inventory taken by the harness' own os.walk/stat before and after): (1) survivors meet every given limit; (2) "
@@ -34,8 +34,10 @@ SLOT = 1000.0
 
 
 def strategy():
+    # 4th field: the entry is then emptied (0-byte output.pkl, no metadata.json - e.g. what a writer killed right after
+    # creating the file leaves): an entry of total size 0 that still counts for the items and age limits
     entry = st.tuples(st.integers(0, 1), st.sampled_from([0, 1, 10, 100, 1000, 1023, 1024, 5000]) | st.integers(0, 5000),
-                      st.integers(0, 6)).map(list)
+                      st.integers(0, 6), st.integers(0, 7).map(lambda x: x == 0)).map(list)
     bytes_sym = st.one_of(
         st.just(["none"]), st.just(["none"]), st.just(["abs", 0]), st.tuples(st.just("total"), st.sampled_from([0, -1, 1])).map(list),
         st.tuples(st.just("after"), st.integers(0, 12), st.sampled_from([0, -1, 1])).map(list),
@@ -83,17 +85,25 @@ def run_case(spec):
         plain = [tasks.blob, tasks.blob2]
         now = time.time()
         entries = []
-        for i, (fi, n, slot) in enumerate(spec["entries"]):
+        for i, ent in enumerate(spec["entries"]):
+            fi, n, slot = ent[:3]
+            zero = len(ent) > 3 and ent[3]
             before = set(_inventory(loc))
             funcs[fi](n, "t%d" % i)
             new = set(_inventory(loc)) - before
             if len(new) != 1:
                 raise Inconclusive("entry creation did not create exactly one directory")
             d = new.pop()
+            if zero:
+                for fn in os.listdir(d):
+                    if fn == "output.pkl":
+                        open(os.path.join(d, fn), "wb").close()
+                    else:
+                        os.unlink(os.path.join(d, fn))
             at = now - (slot * SLOT + 500.0)
             os.utime(os.path.join(d, "output.pkl"), (at, at))
             os.utime(d, (at, at))
-            entries.append({"dir": d, "fi": fi, "n": n, "tag": "t%d" % i, "slot": slot})
+            entries.append({"dir": d, "fi": fi, "n": n, "tag": "t%d" % i, "slot": slot, "zero": bool(zero)})
         inv = _inventory(loc)
         for e in entries:
             e["size"], e["atime"] = inv[e["dir"]]
@@ -157,6 +167,11 @@ def run_case(spec):
             name = "blob" if e["fi"] == 0 else "blob2"
             want = plain[e["fi"]](e["n"], e["tag"])
             cnt = tasks.EXEC_COUNT[name]
+            if e["zero"]:
+                # an emptied entry is not loadable whether it survived or not: only the value is judged (C14)
+                if f(e["n"], e["tag"]) != want:
+                    raise Violation("emptied entry returns a wrong value after reduce_size: %s" % limits, signature=["wrong-value"])
+                continue
             if e in S:
                 if f.check_call_in_cache(e["n"], e["tag"]) is not True:
                     raise Violation("surviving entry is not reported in cache: %s" % limits, signature=["survivor-lost"])
@@ -176,6 +191,8 @@ def run_case(spec):
                 classes.append("limit:" + nm)
         if len(set(e["slot"] for e in entries)) < len(entries):
             classes.append("atime-ties")
+        if any(e["zero"] for e in entries):
+            classes.append("zero-size-entry")
         return {"nontrivial": nontrivial, "classes": classes}
     finally:
         shutil.rmtree(loc, ignore_errors=True)
